@@ -18,7 +18,8 @@ func init() {
 	fw.Register(&fw.Prop{
 		ID: "C12",
 		Rule: "differential monitor of MSE / BCE / CE values: batch 1..8 x classes 1..6, every element of prediction and target drawn from a hostile value class (exactly 0, exactly 1, interior, soft targets, < 0, > 1, within 1e-12 x {0.5,1,2} of 0 / 1 / eps / 1-eps, magnitudes up to 1e6, negative zero), every tracked/untracked combination of the two inputs; one loss object is reused for all calls of a case. The result must be a scalar-shaped tensor, finite, >= 0, equal to the statement's formula evaluated in float64 with the same clipping constants, and bit-identical across the four tracking combinations. " +
-			"Non-trivial: the batch contains a clipped prediction or a soft target, or more than one element; distinct = (loss, batch, classes, multiset of value classes present). Later additions: one loss object evaluated on a sequence of 2-5 batches of different shapes (transposed shapes of equal element count, batch or class sizes 127..4097); every third loss object is the zero value of its exported struct.",
+			"Non-trivial: the batch contains a clipped prediction or a soft target, or more than one element; distinct = (loss, batch, classes, multiset of value classes present). Later additions: one loss object evaluated on a sequence of 2-5 batches of different shapes (transposed shapes of equal element count, batch or class sizes 127..4097); every third loss object is the zero value of its exported struct." +
+			" Round 4: the tracking state, gradient object and element bits of both arguments are compared before and after every Compute.",
 		Assumptions: []string{
 			"tolerance = 1e-9 relative + the conditioning bound of the formula (1.2e-16 x sum_i (t_i/p_i + (1-t_i)/(1-p_i))/N): log(1-p) at p = 1-1e-12 amplifies the rounding of 1-p by 1e12, and a reformulation of the same mathematical value must not alarm",
 		},
@@ -224,8 +225,13 @@ func runC12(c *fw.Ctx) {
 							rp, rtt := rt.MustLeaf(p, combo&1 != 0), rt.MustLeaf(t, combo&2 != 0)
 							var l tensor.Tensor
 							var err error
+							guard := argGuard(rp, rtt)
 							if pn := call(func() { l, err = obj.Compute(rp, rtt) }); pn != nil || err != nil || l == nil {
 								k.Failf("%s.Compute (tracked pred=%v target=%v): panic=%v err=%v", kind, combo&1 != 0, combo&2 != 0, pn, err)
+								return
+							}
+							if msg := guard(); msg != "" {
+								k.Failf("%s.Compute (tracked pred=%v target=%v) changed an argument tensor: %s", kind, combo&1 != 0, combo&2 != 0, msg)
 								return
 							}
 							if sh := l.Shape(); len(sh) != 0 {
